@@ -12,7 +12,9 @@ import os
 import sys
 import time
 
+import re
 import z3
+from mirsym import coll_bi
 
 from checks import framework as fw
 from checks.framework import explore_from_bytes, Prover, model_bytes, leaf_sig
@@ -67,7 +69,9 @@ class Sym:
         return Struct('Position', (self.f64(tag + '_plat', True), self.f64(tag + '_plon', True)))
 
     def time(self, tag):
-        return Struct('SystemTime', (Int('u128', z3.ZeroExt(28, z3.BitVec(tag, 100))),))
+        n = z3.BitVec(tag + '_n', 32)
+        self.assume.append(z3.ULT(n, 1000000000))
+        return Struct('SystemTime', (Int('u64', z3.ZeroExt(2, z3.BitVec(tag + '_s', 62))), Int('u32', n)))
 
     def coor(self, tag, invariant=True):
         names = self.S['AirplaneCoor']
@@ -178,9 +182,58 @@ def sym_frame(sym, prog, fclass):
         cf = mk_struct(prog, 'ControlField', {'t': cenum('ControlFieldType', 'f_cft', 3), 'aa': sym.icao('f_aa'), 'me': me})
         df = mk_variant(prog, 'DF', 'TisB', {'cf': cf, 'pi': sym.icao('f_pi')})
     else:
-        names = prog.src.vfields.get(('DF', fclass)) or []
-        df = Enum('DF', fclass, [Opaque('field', n) for n in names])
+        decls = prog.src.vftypes.get(('DF', fclass))
+        if decls:
+            df = Enum('DF', fclass, [sym_typed(sym, prog, t, 'f_' + n, a) for n, t, a in decls])
+        else:
+            names = prog.src.vfields.get(('DF', fclass)) or []
+            df = Enum('DF', fclass, [Opaque('field', n) for n in names])
     return mk_struct(prog, 'Frame', {'df': df, 'crc': crc})
+
+
+def sym_typed(sym, prog, ty, tag, attrs='', depth=0):
+    """An arbitrary symbolic value of Rust type `ty` (as written in the sources): integers, bool, ICAO, field-less
+    enums (any declared discriminant), named / tuple structs, Option, fixed-count Vec<u8>, arrays.  Anything else
+    (payload enums such as ME / BDS, strings) stays an opaque placeholder: code that inspects it makes the run
+    inconclusive rather than wrong."""
+    src = prog.src
+    ty = ty.strip()
+    if ty in INT_TYPES:
+        w = INT_TYPES[ty][0]
+        m = re.search(r'bits\s*=\s*"(\d+)"', attrs or '')
+        nb = int(m.group(1)) if m and int(m.group(1)) < w else w
+        v = z3.BitVec(tag, nb)
+        return Int(ty, z3.ZeroExt(w - nb, v) if nb < w else v)
+    if ty == 'bool':
+        return z3.Bool(tag)
+    if ty == 'ICAO':
+        return sym.icao(tag)
+    if ty in ('f64', 'f32'):
+        return sym.f64(tag, True) if ty == 'f64' else sym.f32(tag)
+    if depth > 4:
+        return Opaque('field', tag)
+    m = re.match(r'^Option<(.*)>$', ty)
+    if m:
+        return sym.opt(tag, sym_typed(sym, prog, m.group(1), tag + '_v', '', depth + 1))
+    m = re.match(r'^\[(.*);\s*(\d+)\]$', ty)
+    if m:
+        return Arr([sym_typed(sym, prog, m.group(1), '%s_%d' % (tag, i), '', depth + 1) for i in range(int(m.group(2)))])
+    m = re.match(r'^Vec<(.*)>$', ty)
+    if m:
+        c = re.search(r'count\s*=\s*"(\d+)"', attrs or '')
+        if c:
+            return Vec(tuple(sym_typed(sym, prog, m.group(1), '%s_%d' % (tag, i), '', depth + 1) for i in range(int(c.group(1)))))
+        return Opaque('field', tag)
+    en = src.enums.get(ty)
+    if en is not None and ty not in src.payload_enums and en:
+        d = z3.BitVec(tag, 64)
+        sym.assume.append(z3.Or(*[d == z3.BitVecVal(v & ((1 << 64) - 1), 64) for v in sorted(set(en.values()))]))
+        return Enum(ty, None, (), discr=d)
+    if ty in src.ftypes and src.ftypes[ty]:
+        return Struct(ty, [sym_typed(sym, prog, t, '%s_%s' % (tag, n), a, depth + 1) for n, t, a in src.ftypes[ty]])
+    if ty in src.tstructs:
+        return Struct(ty, [sym_typed(sym, prog, t, '%s_%d' % (tag, i), '', depth + 1) for i, t in enumerate(src.tstructs[ty])])
+    return Opaque('field', tag)
 
 
 ME_CLASSES = ['AirbornePositionBaroAltitude', 'AirbornePositionGNSSAltitude', 'AircraftIdentification:0',
@@ -200,7 +253,7 @@ def default_coor(S):
 def default_state(S):
     vals = {'coords': default_coor(S), 'squawk': _b.NONE, 'callsign': _b.NONE, 'heading': _b.NONE, 'speed': _b.NONE,
             'vert_speed': _b.NONE, 'on_ground': _b.NONE, 'num_messages': Int('u32', 0),
-            'last_time': Struct('SystemTime', (Int('u128', 0),)), 'track': _b.NONE}
+            'last_time': Struct('SystemTime', (Int('u64', 0), Int('u32', 0))), 'track': _b.NONE}
     return Struct('AirplaneState', [vals[n] for n in S['AirplaneState'] if n in vals])
 
 
@@ -304,7 +357,7 @@ def real_of_fp(t, cache=None):
     elif k == z3.Z3_OP_FPA_TO_FP and len(ch) == 2 and z3.is_fp(ch[1]):
         r = real_of_fp(ch[1], cache)          # precision conversion: identity in the reals
     elif k == z3.Z3_OP_UNINTERPRETED and ch:
-        name = t.decl().name().replace('libm_', 'r_').replace('_f64', '').replace('_f32', '')
+        name = t.decl().name().replace('libm_', 'r_').replace('stdm_', 'r_').replace('_f64', '').replace('_f32', '')
         f = z3.Function(name, *([z3.RealSort()] * (len(ch) + 1)))
         r = f(*[real_of_fp(c, cache) for c in ch])
     elif k == z3.Z3_OP_UNINTERPRETED:
@@ -553,10 +606,22 @@ def note(res, ex):
         res['inconclusive'] = 'solver returned unknown during exploration'
 
 
+STEP_CTX = {}      # what is being executed (set by the job functions): lets viol() write the counterexample out for
+#                    the native replay of the step (checks/step_replay.py)
+
+
 def viol(res, prop, role, detail, model, syms, job, extra=None):
     v = {'property': prop, 'role': role, 'detail': detail, 'job': job, 'witness': None}
+    if model is not None and model != 'unknown' and STEP_CTX.get('op'):
+        from checks import step_replay
+        try:
+            v['step'] = step_replay.step_json(STEP_CTX['prog'], STEP_CTX, model)
+        except step_replay.NotReplayable as e:
+            v['step_error'] = 'not replayable: %s' % e
+        except Exception as e:      # noqa
+            v['step_error'] = 'serialisation failed: %r' % (e,)
     if model is not None and model != 'unknown':
-        v['model'] = {str(d): str(model[d]) for d in model.decls() if not str(d).startswith(('fpatom', 'libm_', 'get_position', 'r_'))}
+        v['model'] = {str(d): str(model[d]) for d in model.decls() if not str(d).startswith(('fpatom', 'libm_', 'stdm_', 'get_position', 'r_'))}
         if syms.get('bs') is not None:
             v['witness'] = model_bytes(model, syms['bs']).hex()
     if model == 'unknown':
@@ -603,6 +668,8 @@ def job_action(prog, job):
         ex2.overrides['get_position'] = get_position_stub
         ls = ex2.run_with_cells(fn, [('cell', planes), fr, recv, max_range], pc=pc0)
         note(res, ex2)
+        STEP_CTX.clear()
+        STEP_CTX.update({'prog': prog, 'op': 'action', 'pre': planes, 'frame': fr, 'recv': recv, 'max_range': max_range})
         cid = ex2.cell_ids[0]
         df = A.f(fr, 'df')
         m_ = me_of({'A': A}, df)
@@ -692,6 +759,14 @@ def job_action(prog, job):
                     inv2 = z3.And(z3.Implies(opt_discr(sl[0]) == 1, enum_discr_bv(fget(S, sl[0].f[0], 'odd_flag')) == 0) if sl[0].f else z3.BoolVal(True),
                                   z3.Implies(opt_discr(sl[1]) == 1, enum_discr_bv(fget(S, sl[1].f[0], 'odd_flag')) == 1) if sl[1].f else z3.BoolVal(True))
                     ob(res, P, 'C14', '%s:slot-parity' % role_base, z3.Implies(g, inv2), 'a report is stored in the slot of the other parity', bs, job)
+                if 'C15' in props and 'last_time' in S['AirplaneState']:
+                    # the record of the aircraft just heard carries a clock reading taken during this call: pruning
+                    # measures the time since the most recent message
+                    n_now = c.env.get('clock_n', 0)
+                    lt = coll_bi.t_parts(fget(S, gv, 'last_time'))
+                    fresh = z3.Or(*[coll_bi.t_eq(lt, coll_bi.clock_reading(j)) for j in range(n_now)]) if n_now else z3.BoolVal(False)
+                    ob(res, P, 'C15', '%s:heard-stamp' % role_base, z3.Implies(g, fresh),
+                       'the time stamp of the aircraft just heard is not a clock reading taken while handling this frame', bs, job)
                 if 'C13' in props:
                     ob(res, P, 'C13', '%s:coords' % role_base, z3.Implies(g, state_eq(S, fget(S, gv, 'coords'), fget(S, wv, 'coords'))),
                        'position record differs from the reference model (pair most recent even/odd, range and 100 km checks, clear otherwise)', bs, job)
@@ -729,6 +804,8 @@ def job_views(prog, job):
     ex = Executor(prog, _b.B)
     ls = ex.run(fn, [Ref(('V', planes)), q], pc=list(sym.assume))
     note(res, ex)
+    STEP_CTX.clear()
+    STEP_CTX.update({'prog': prog, 'op': 'details', 'pre': planes, 'icao': q})
     for c in ls:
         res['paths'] += 1
         P.set_path(c.pc)
@@ -760,6 +837,8 @@ def job_views(prog, job):
     ex2 = Executor(prog, _b.B)
     ls = ex2.run(fn2, [Ref(('V', planes))], pc=list(sym.assume))
     note(res, ex2)
+    STEP_CTX.clear()
+    STEP_CTX.update({'prog': prog, 'op': 'all_position', 'pre': planes})
     for c in ls:
         res['paths'] += 1
         P.set_path(c.pc)
@@ -811,29 +890,33 @@ def job_prune(prog, job):
         env = {'clock_mode': mode}
         if mode == 'monotone':
             # last-heard stamps were taken from the same clock earlier: now >= every stamp
-            env['clock_last'] = z3.BitVec('clock_floor', 128)
+            env['clock_last'] = (z3.BitVec('clock_floor_s', 64), z3.BitVec('clock_floor_n', 32))
+            pc.append(z3.ULT(env['clock_last'][1], 1000000000))
             for s in states:
-                pc.append(z3.ULE(to_bv(fget(S, s, 'last_time').f[0]), env['clock_last']))
+                pc.append(coll_bi.t_le(coll_bi.t_parts(fget(S, s, 'last_time')), env['clock_last']))
         ls = ex.run_with_cells(fn, [('cell', planes), Int('u64', T)], env=env, pc=pc)
         note(res, ex)
         cid = ex.cell_ids[0]
         for c in ls:
             res['paths'] += 1
             P.set_path(c.pc)
+            STEP_CTX.clear()
+            STEP_CTX.update({'prog': prog, 'op': 'prune', 'pre': planes, 'T': T,
+                             'nows': [coll_bi.clock_reading(i) for i in range(c.env.get('clock_n', 0))]})
             if c.kind != 'return':
                 viol(res, 'C15', 'prune-panics', 'prune panics: %s' % c.msg, P.feasible(), {}, job)
                 continue
             post = c.cells[cid].f[0]
             # clock readings taken on this path, one per elapsed() call, in order
-            nows = [z3.BitVec('now!%d' % i, 128) for i in range(c.env.get('clock_n', 0))]
+            nows = [coll_bi.clock_reading(i) for i in range(c.env.get('clock_n', 0))]
             if len(nows) != k:
                 viol(res, 'C15', 'prune-clock-reads', 'prune read the clock %d times for %d records' % (len(nows), k), P.feasible(), {}, job)
                 continue
-            thr = z3.ZeroExt(64, T) * z3.BitVecVal(1000000000, 128)
             keep = []
             for i, s in enumerate(states):
-                lt = to_bv(fget(S, s, 'last_time').f[0])
-                alive = z3.And(z3.UGE(nows[i], lt), z3.ULT(nows[i] - lt, thr))
+                lt = coll_bi.t_parts(fget(S, s, 'last_time'))
+                # heard less than T seconds ago: now >= stamp and (now - stamp) < (T s, 0 ns), i.e. whole seconds < T
+                alive = z3.And(coll_bi.t_le(lt, nows[i]), z3.ULT(coll_bi.t_sub(nows[i], lt)[0], T))
                 keep.append(alive)
             # survivors on this path
             j = 0
@@ -859,6 +942,7 @@ def job_prune(prog, job):
 
 def job_haversine(prog, job):
     """C13: the distance term equals the reference haversine formula modulo real arithmetic + congruence"""
+    STEP_CTX.clear()
     res = new_res()
     sym = Sym(prog)
     a = (sym.f64('lat1'), sym.f64('lon1'))
